@@ -23,6 +23,8 @@ structure DSt (α : Type) where
   pal : Array (Cell α)
   mul : Nat
   add : Nat
+  /-- counters of the cells, accumulated over the `pkt` lines since the last `cells` line -/
+  ctr : Nat → Counters α
 
 def cellsOf {α : Type} (dflt : Cell α) (s : DSt α) : Nat → Cell α := fun c =>
   if s.pal.size == 0 then dflt else s.pal.getD ((c * s.mul + s.add) % s.pal.size) dflt
@@ -47,8 +49,13 @@ def fZeroCell : Cell Float := ⟨0.0, 0.0, 0.0⟩
 
 def showV (v : V3 Float) : String := s!"{showF v.x} {showF v.y} {showF v.z}"
 
-def showVisit (v : Visit Float) : String :=
-  s!" v {v.cell} {showF v.path} {showF v.jH} {showF v.jHe} {showF v.jX} {showF v.hH} {showF v.hHe}"
+/-- a visit: cell, path, the three mean-intensity increments, and the five counters of the cell as
+they stand after the packet (`deposit`: accumulated on whatever earlier packets left there) -/
+def showVisit (ctr : Nat → Counters Float) (v : Visit Float) : String :=
+  let c := ctr v.cell.toNat
+  s!" v {v.cell} {showF v.path} {showF v.jH} {showF v.jHe} {showF v.jX} {showF c.jH} {showF c.jHe} {showF c.jX} {showF c.hH} {showF c.hHe}"
+
+def zeroCtrF : Nat → Counters Float := fun _ => ⟨0.0, 0.0, 0.0, 0.0, 0.0⟩
 
 /-- branch tags of one packet: recomputed by walking the same `geo`/`step` stages -/
 def tagsF (b : Block Float) (cells : Nat → Cell Float) (ph : Photon Float) (inDir : Nat)
@@ -94,15 +101,17 @@ def stepF (s : DSt Float) : List String → DSt Float × String
   | "cells" :: m :: mul :: add :: rest =>
     let pal := parsePalette fOfBits rest #[]
     if pal.size != nat! m then (s, "bad-op") else
-    ({ s with pal := pal, mul := nat! mul, add := nat! add }, s!"cells {pal.size}")
+    ({ s with pal := pal, mul := nat! mul, add := nat! add, ctr := zeroCtrF }, s!"cells {pal.size}")
   | "pkt" :: rest =>
     match parsePhoton fOfBits (rest.map nat!) with
     | some (ph, inDir) =>
       let cells := cellsOf fZeroCell s
       let r := interact s.blk cells ph inDir
-      let vs := String.join (r.visits.map showVisit)
+      let ctr' := deposit s.ctr r.visits
+      -- only the touched cells are kept as an update chain (bounded by the visits of a group)
+      let vs := String.join (r.visits.map (showVisit ctr'))
       let tags := ",".intercalate (tagsF s.blk cells ph inDir (initSt s.blk ph inDir) r)
-      (s, s!"pkt out={r.outDir} fin={if r.finished then 1 else 0} pos={showV r.pos} tau={showF r.tauLeft} nv={r.visits.length}{vs} #{tags}")
+      ({ s with ctr := ctr' }, s!"pkt out={r.outDir} fin={if r.finished then 1 else 0} pos={showV r.pos} tau={showF r.tauLeft} nv={r.visits.length}{vs} #{tags}")
     | none => (s, "bad-op")
   | "prp" :: rest =>
     match parsePhoton fOfBits (rest.map nat!) with
@@ -289,6 +298,8 @@ def stepQ (s : DSt Rat) : List String → DSt Rat × String
 
 def main (args : List String) : IO Unit :=
   if args.contains "rat" then
-    runDriver stepQ ({ blk := mkBlock (v3 0 0 0) (v3 1 1 1) (v3 1 1 1), pal := #[], mul := 0, add := 0 } : DSt Rat)
+    runDriver stepQ ({ blk := mkBlock (v3 0 0 0) (v3 1 1 1) (v3 1 1 1), pal := #[], mul := 0, add := 0,
+                       ctr := fun _ => ⟨0, 0, 0, 0, 0⟩ } : DSt Rat)
   else
-    runDriver stepF ({ blk := mkBlock (v3 0.0 0.0 0.0) (v3 1.0 1.0 1.0) (v3 1 1 1), pal := #[], mul := 0, add := 0 } : DSt Float)
+    runDriver stepF ({ blk := mkBlock (v3 0.0 0.0 0.0) (v3 1.0 1.0 1.0) (v3 1 1 1), pal := #[], mul := 0, add := 0,
+                       ctr := zeroCtrF } : DSt Float)
